@@ -29,6 +29,14 @@ CLAIMED = {
    text="Rocq theorems: every stream decoder of the model is a crash-free reader program, and crash-free programs never report a panic under ANY input, segmentation and EOF point; Frame::from_buffer, decode_address, decode_socks_frame, StreamFrameReader and the fragment reassembler never panic for any byte string / datagram sequence; the SOCKS5 connector never panics on any upstream reply; the inventory of potential panic sites (unwrap, indexing, Buf cursor ops, shifts, narrowing casts) regenerated from the source on every run equals the audited list (sites_fingerprint); Cargo profile premise (panic=abort). Tie: hostile inputs through every real decoder vs the extracted model with a 'no panic / no hang' oracle.",
    note="Partial: decoder level only. Kernel/TLS/QUIC library behaviour, stalls (C13/C14) and resource exhaustion by connection count (finding D32) are not covered by the theorems; tproxy needs CAP_NET_ADMIN and is not exercised. Trusted: Coq kernel, extraction, translator gen/translate.py, driver glue.",
    tech="Rocq proof (crash-freedom by induction over reader programs, totality of buffer decoders) + regenerated panic-site fingerprint + differential hostile-input correspondence"),
+ "C15": dict(
+   text="Rocq theorems over Reload.v (set_rules / identity post / probe op sequences on top of Dispatch.v): set_rules succeeds iff every rule compiles, type-checks to boolean and names deny or an existing connector; an invalid rule at ANY position rejects the whole replacement; all-or-nothing state transition; probes use the list in force; get-then-post is the identity on every reachable state (consistency invariant). The atomicity of a decision against a concurrent replacement rests on skeleton facts re-extracted from src/main.rs on every run (single write after all fallible steps; one read guard, no await inside the find_map closure) and proved equal to the expected values. Tie: real set_rules/process_request op sequences vs the extracted model, plus a concurrent stress run whose only admissible decisions are those of the two lists.",
+   note="Trusted: tokio RwLock semantics (modelled), serde (de)serialisation of rules (validated by the identity op), translator, extraction, glue.",
+   tech="Rocq proof over an op-sequence model + regenerated lock skeleton + differential correspondence"),
+ "C17": dict(
+   text="Rocq theorems over Lb.v: round robin hits every position exactly k times in ANY k*n consecutive tickets from any counter value (sliding-window induction), and under ANY interleaving of the atomic fetch_adds of any number of tasks (tickets are consecutive, counts are permutation invariant); selection is total on non-empty lists and only ever yields members; hash-by is a function of the key value; every member is possible for random. Tie: the real LoadBalanceConnector (from YAML through from_value/init/verify) in front of recording members, sequential and from 2-32 concurrent tasks; laws checked on the observed selections, recorded connector = member whose connect ran.",
+   note="DefaultHasher and thread_rng are parameters of the model; usize wrap-around of the counter is outside the window theorem (needs 2^64 requests). Trusted: AtomicUsize atomicity, Coq kernel, glue.",
+   tech="Rocq proof (induction, permutation invariance) + law checking on the real connector"),
  "C03": dict(
    text="Rocq round-trip theorems writer->reader for every destination codec (SOCKS5 address and full request exchange, SOCKS4/4a, RPFM frame header, SOCKS-UDP header, HTTP CONNECT line incl. Host header) with exact characterisation of refusals; every theorem also states that exactly the following bytes are left. Tie: three-stage differential correspondence (inbound decode, outbound encode, next-hop decode) against the real codecs plus the implementation-only oracle reader(writer(t)) = t or refused.",
    note="Trusted: Coq kernel, extraction, glue. std's SocketAddr text form (IPv6 in particular) is an explicit premise (sockaddr_text_ok) of the CONNECT theorem; invalid UTF-8 inbound hosts are replaced by from_utf8_lossy before rules see them and are outside the theorem domain (compared for panics only).",
